@@ -14,7 +14,10 @@
 (*   kids  baseStage.execute(node): the loop over the node's children      *)
 (*   next  completeHandle: NextStages(), one executeStage per child        *)
 (*   fin   completeStage, part under the mutex (state, first error)        *)
-(*   dec   completeStage, pending.Dec() and complete() when it hits zero   *)
+(*   unl   completeStage, the mutex is released                            *)
+(*   dec   completeStage, pending.Dec()                                    *)
+(*   cmp   completeStage of the stage that brought pending to zero: the    *)
+(*         first error is read (under the mutex again) and complete(err)   *)
 (*   end   the handler returns                                             *)
 (*   mainc Pipeline.Execute's recover: complete(err)                       *)
 (* Plan tree of a stage (stage.Plan(): PlanNode with Children()): a node   *)
@@ -29,10 +32,15 @@
 (*   FirstErrorWins   the child loop of baseStage.execute returns at the   *)
 (*                    first failing child (FALSE: the result of the last   *)
 (*                    child is returned, later siblings still run)         *)
+(*   ErrReadAtCompletion  the error handed to complete() is read AFTER      *)
+(*                    pending reached zero (FALSE: it is sampled inside    *)
+(*                    the stage's own lock section, before pending.Dec():  *)
+(*                    a stage that fails between the sample and the        *)
+(*                    decrement of the last stage is not reported)         *)
 (***************************************************************************)
 EXTENDS Naturals, Sequences, FiniteSets, TLC
 
-CONSTANTS KeepFirstError, RecoverPerStage, FirstErrorWins
+CONSTANTS KeepFirstError, RecoverPerStage, FirstErrorWins, ErrReadAtCompletion
 
 VARIABLES children,   \* [Stage -> Seq(Stage)]   the stage tree (NextStages)
           root,
@@ -192,26 +200,41 @@ Next1(t) ==
   /\ UNCHANGED <<pending, registered, done, completed, cbCount, cbErr, errSeen, anyErr, TreeGhosts>>
   /\ Static
 
-\* completeStage under the mutex: stage state, first error
+\* completeStage under the mutex: stage state, first error.  es: the first error as this call sees it inside
+\* its own lock section (used by the deviation ~ErrReadAtCompletion only; constant otherwise)
 FinMark(t) ==
   /\ Has(t, "fin")
   /\ LET s == Top(t).s  e == Top(t).e IN
      /\ done' = done \cup {s}
      /\ errSeen' = (errSeen \/ e)
-     /\ stacks' = Replace(t, [k |-> "dec", s |-> s, e |-> e, q |-> Top(t).q])
+     /\ stacks' = Replace(t, [k |-> "unl", s |-> s, e |-> e, q |-> Top(t).q,
+                              es |-> IF ErrReadAtCompletion THEN FALSE ELSE (errSeen \/ e)])
   /\ UNCHANGED <<pending, registered, completed, cbCount, cbErr, anyErr, TreeGhosts>>
   /\ Static
 
-\* completeStage after the mutex: pending.Dec() == 0 => complete(err)
+\* completeStage: sm.mutex.Unlock() -- from here on other stages pass through their lock sections
+FinUnlock(t) ==
+  /\ Has(t, "unl")
+  /\ stacks' = Replace(t, [Top(t) EXCEPT !.k = "dec"])
+  /\ UNCHANGED <<pending, registered, done, completed, cbCount, cbErr, errSeen, anyErr, TreeGhosts>>
+  /\ Static
+
+\* completeStage after the mutex: pending.Dec(); the call that reads zero goes on to complete the pipeline
 FinDec(t) ==
   /\ Has(t, "dec")
-  /\ LET s == Top(t).s  e == Top(t).e IN
-     /\ pending' = pending - 1
-     /\ IF pending - 1 = 0
-          THEN Complete(IF KeepFirstError THEN errSeen ELSE e)
-          ELSE UNCHANGED <<completed, cbCount, cbErr>>
-     /\ stacks' = Replace(t, [k |-> "end", s |-> s, q |-> Top(t).q])
-  /\ UNCHANGED <<registered, done, errSeen, anyErr, TreeGhosts>>
+  /\ pending' = pending - 1
+  /\ stacks' = Replace(t, IF pending - 1 = 0 THEN [Top(t) EXCEPT !.k = "cmp"]
+                                             ELSE [k |-> "end", s |-> Top(t).s, q |-> Top(t).q])
+  /\ UNCHANGED <<registered, done, completed, cbCount, cbErr, errSeen, anyErr, TreeGhosts>>
+  /\ Static
+
+\* completeStage, pending.Dec() == 0: `lock; err = sm.err; unlock; sm.complete(err)`
+FinComplete(t) ==
+  /\ Has(t, "cmp")
+  /\ LET f == Top(t) IN
+     /\ Complete(IF ~KeepFirstError THEN f.e ELSE IF ErrReadAtCompletion THEN errSeen ELSE f.es)
+     /\ stacks' = Replace(t, [k |-> "end", s |-> f.s, q |-> f.q])
+  /\ UNCHANGED <<pending, registered, done, errSeen, anyErr, TreeGhosts>>
   /\ Static
 
 FinEnd(t) ==
@@ -228,7 +251,8 @@ MainComplete ==
   /\ UNCHANGED <<pending, registered, done, errSeen, anyErr, TreeGhosts>>
   /\ Static
 
-Step(t) == Chk(t) \/ Register(t) \/ Plan(t) \/ OpRun(t) \/ Kids(t) \/ Next1(t) \/ FinMark(t) \/ FinDec(t) \/ FinEnd(t)
+Step(t) == Chk(t) \/ Register(t) \/ Plan(t) \/ OpRun(t) \/ Kids(t) \/ Next1(t)
+             \/ FinMark(t) \/ FinUnlock(t) \/ FinDec(t) \/ FinComplete(t) \/ FinEnd(t)
 Next == (\E t \in Thread : Step(t)) \/ MainComplete
 
 Quiescent == \A t \in Thread : stacks[t] = << >>
@@ -244,7 +268,7 @@ OnlyAfterAllStrong == (RecoverPerStage /\ cbCount = 1) => registered \subseteq d
 ErrorReported == (Quiescent /\ cbCount = 1 /\ anyErr) => cbErr
 ExactlyOnceAtEnd == Quiescent => cbCount = 1
 PendingSane == RecoverPerStage =>
-                 pending = Cardinality(registered \ done) + Cardinality({t \in Thread : Has(t, "dec")})
+                 pending = Cardinality(registered \ done) + Cardinality({t \in Thread : Has(t, "unl") \/ Has(t, "dec")})
 Terminates == <>(Quiescent /\ cbCount = 1)
 
 \* ---------------------------------------------------------------- C19, plan tree of a stage
